@@ -1,4 +1,98 @@
+//! errors (C07/C22/C23/C24): full front-end pipeline diagnostics; subtype (C03/C06): types elaborated from SOURCE type
+//! specs by the real lowerer, then the N x N Context::subtype_of matrix.
+use erg_common::config::ErgConfig;
+use erg_common::io::Output;
+use erg_common::traits::{Runnable, Stream};
+use erg_compiler::error::CompileErrors;
+use erg_compiler::lower::ASTLowerer;
+use erg_compiler::ty::{ParamTy, Type};
+use erg_compiler::HIRBuilder;
 use serde_json::{json, Value};
-pub fn errors(_req: Value) -> Value { json!({"harness_error": "not implemented"}) }
-pub fn typedump(_req: Value) -> Value { json!({"harness_error": "not implemented"}) }
-pub fn subtype(_req: Value) -> Value { json!({"harness_error": "not implemented"}) }
+
+use crate::guarded;
+use crate::lexparse::core_json;
+
+fn errs_json(errs: &CompileErrors) -> Vec<Value> {
+    errs.iter()
+        .map(|e| {
+            let mut v = core_json(&e.core);
+            v["caused_by"] = json!(e.caused_by);
+            v["sub"] = json!(e.core.sub_messages.iter().map(|s| format!("{:?}", s.loc)).collect::<Vec<_>>());
+            v
+        })
+        .collect()
+}
+
+/// {"src": "..."} -> {"ok": bool, "errors": [...], "warns": [...]}   (parse + lower + effect/ownership checks, no codegen)
+pub fn errors(req: Value) -> Value {
+    let src = req["src"].as_str().unwrap_or("").to_string();
+    guarded(move || {
+        let mut cfg = ErgConfig::string(src.clone());
+        cfg.output = Output::Null;
+        let mut builder = HIRBuilder::new(cfg);
+        match builder.build(src, "exec") {
+            Ok(art) => json!({"ok": true, "errors": [], "warns": errs_json(&art.warns)}),
+            Err(iart) => json!({"ok": false, "errors": errs_json(&iart.errors), "warns": errs_json(&iart.warns)}),
+        }
+    })
+}
+
+pub fn typedump(_req: Value) -> Value {
+    json!({"harness_error": "not implemented"})
+}
+
+fn first_param_type(t: &Type) -> Option<Type> {
+    let t = match t {
+        Type::Quantified(inner) => inner.as_ref(),
+        other => other,
+    };
+    if let Type::Subr(subr) = t {
+        subr.non_default_params.first().map(|p| match p {
+            ParamTy::Pos(t) => t.clone(),
+            ParamTy::Kw { ty, .. } | ParamTy::KwWithDefault { ty, .. } => ty.clone(),
+            _ => Type::Failure,
+        })
+    } else {
+        None
+    }
+}
+
+/// {"specs": ["Nat", "{I: Int | I >= 0}", ...]} -> {"types": [display|null], "matrix": [[bool|null]]}
+/// matrix[i][j] = subtype_of(T_i, T_j)
+pub fn subtype(req: Value) -> Value {
+    guarded(move || {
+        let specs: Vec<String> = req["specs"].as_array().unwrap().iter().map(|s| s.as_str().unwrap().to_string()).collect();
+        let mut src = String::new();
+        for (i, s) in specs.iter().enumerate() {
+            src.push_str(&format!("tspec{i}(x: {s}) = x\n"));
+        }
+        let mut cfg = ErgConfig::string(src.clone());
+        cfg.output = Output::Null;
+        let mut lowerer = ASTLowerer::new(cfg);
+        let res = lowerer.exec();
+        let errors = match res {
+            Ok(_) => vec![],
+            Err(errs) => errs_json(&errs),
+        };
+        let Some(module) = lowerer.pop_mod_ctx() else {
+            return json!({"harness_error": "no module context", "errors": errors});
+        };
+        let ctx = &module.context;
+        let types: Vec<Option<Type>> = (0..specs.len())
+            .map(|i| ctx.get_var_info(&format!("tspec{i}")).and_then(|(_, vi)| first_param_type(&vi.t)))
+            .collect();
+        let shown: Vec<Value> = types.iter().map(|t| t.as_ref().map(|t| json!(format!("{t}"))).unwrap_or(Value::Null)).collect();
+        let mut matrix = vec![];
+        for a in types.iter() {
+            let mut row = vec![];
+            for b in types.iter() {
+                match (a, b) {
+                    (Some(a), Some(b)) => row.push(json!(ctx.subtype_of(a, b))),
+                    _ => row.push(Value::Null),
+                }
+            }
+            matrix.push(Value::Array(row));
+        }
+        json!({"types": shown, "matrix": matrix, "errors": errors})
+    })
+}
